@@ -21,6 +21,7 @@ const (
 	FLong                // 10-100 kB
 	FRep                 // residue representative used by the systematic history sweep
 	FGrown               // found by coverage-guided growth on the current tree
+	FFamily              // member of a token family (same word in SQLi and XSS syntactic positions)
 )
 
 type Corpus struct {
@@ -28,6 +29,15 @@ type Corpus struct {
 	Flags []int
 	Ref   [2][]string // reference result per api
 	Steps [2][]int64  // fault-free step count per api (from the instrumented sequential pass)
+	Group []int32     // token-family id (0 = none); may be shorter than In
+}
+
+// GroupOf returns the family id of input i.
+func (c *Corpus) GroupOf(i int) int32 {
+	if i < len(c.Group) {
+		return c.Group[i]
+	}
+	return 0
 }
 
 func (c *Corpus) Len() int { return len(c.In) }
@@ -70,6 +80,7 @@ func (c *Corpus) Write(path string) error {
 			}
 			fmt.Fprintf(w, "\t%s\t%d", base64.StdEncoding.EncodeToString([]byte(r)), st)
 		}
+		fmt.Fprintf(w, "\t%d", c.GroupOf(i))
 		w.WriteByte('\n')
 	}
 	if err := w.Flush(); err != nil {
@@ -89,9 +100,14 @@ func ReadCorpus(path string) (*Corpus, error) {
 			continue
 		}
 		f := strings.Split(line, "\t")
-		if len(f) != 6 {
+		if len(f) != 6 && len(f) != 7 {
 			return nil, fmt.Errorf("%s:%d: bad corpus line", path, ln+1)
 		}
+		g := 0
+		if len(f) == 7 {
+			g, _ = strconv.Atoi(f[6])
+		}
+		c.Group = append(c.Group, int32(g))
 		in, err := base64.StdEncoding.DecodeString(f[0])
 		if err != nil {
 			return nil, err
